@@ -147,7 +147,7 @@ func init() {
 			"one ONCE call site per query; no LIMIT; function errors under ASYNC belong to C10/C19; SPIN completion before return is not required (only 'adds no column')",
 			"ASYNC calls appear as direct select-list items (the README rules out ASYNC inside FROM clauses)",
 		},
-		Floor:         []string{"q.plain", "q.async", "q.spinasync", "q.spin", "q.once", "q.await-async", "star", "where", "nested", "shape.union", "shape.cte", "shape.cte-shadow-twice", "shape.multidim", "arg.null", "page", "page.empty", "order.async", "distinct.async", "joinop.derived", "joinop.both", "consumed.where", "consumed.aggregate", "consumed.group", "consumed.join-on", "consumed.in-subquery", "consumed.fnarg", "consumed.cte", "consumed.order", "consumed.dual", "failwait.nested", "reexec.async-failure", "shape.cte-nested-twice", "builtin.async", "failwait", "lat.zero", "lat.yield", "lat.random", "lat.skewed", "lat.straggler", "table.empty", "imm.async", "imm.spin", "imm.spinasync", "imm.harness", "imm.harness-mixedcase", "imm.registered-late", "imm.registered-after-plain", "q.async.if-branch", "shape.cte-union", "once.spelled-twice"},
+		Floor:         []string{"q.plain", "q.async", "q.spinasync", "q.spin", "q.once", "q.await-async", "star", "where", "nested", "shape.union", "shape.cte", "shape.cte-shadow-twice", "shape.multidim", "arg.null", "page", "page.empty", "order.async", "distinct.async", "joinop.derived", "joinop.both", "consumed.where", "consumed.aggregate", "consumed.group", "consumed.join-on", "consumed.in-subquery", "consumed.fnarg", "consumed.cte", "consumed.order", "consumed.dual", "failwait.nested", "reexec.async-failure", "shape.cte-nested-twice", "builtin.async", "failwait", "lat.zero", "lat.yield", "lat.random", "lat.skewed", "lat.straggler", "table.empty", "imm.async", "imm.spin", "imm.spinasync", "imm.harness", "imm.harness-mixedcase", "imm.registered-late", "imm.registered-after-plain", "q.async.if-branch", "shape.cte-union", "once.spelled-twice", "once.argument-of-first-row", "async.argument-from-register"},
 		MinNontrivial: 30,
 		Phases: []fw.Phase{
 			{Name: "ledger", N: func(t fw.Tier) int { return pick(t, 2500, 40000) }, Run: func(c *fw.Case) { c14Ledger(c, false) }},
@@ -1247,6 +1247,14 @@ func c14OnceSpelling(c *fw.Case) {
 	spell := func() string {
 		return gen.Pick(c.R, []string{"ONCE", "once", "Once"}) + "." + gen.Pick(c.R, []string{"VFONCE", "vfonce", "VfOnce", "vfOnce"})
 	}
+	if c.Idx%3 == 2 {
+		c14OnceArgs(c, t)
+		return
+	}
+	if c.Idx%3 == 1 {
+		c14AsyncArgs(c)
+		return
+	}
 	a, b, d := spell(), spell(), spell()
 	sql := fmt.Sprintf("SELECT rid, %s(7, 0, 1) AS a, %s(7, 0, 1) AS b FROM t1", a, b)
 	if c.Chance(0.5) {
@@ -1285,4 +1293,89 @@ func c14OnceSpelling(c *fw.Case) {
 		return
 	}
 	c.Nontrivial(sql)
+}
+
+// c14OnceArgs: the single invocation of a ONCE call takes its arguments from
+// the row that triggers it; every row sees that one value - also the rows on
+// which the argument expression itself could not be evaluated.
+func c14OnceArgs(c *fw.Case, t *gen.Table) {
+	for len(t.Rows) < 2 {
+		t.Rows = append(t.Rows, map[string]any{"rid": float64(len(t.Rows))})
+	}
+	for i, row := range t.Rows {
+		row["tags"] = []any{9.0}
+		if i == 0 {
+			row["tags"] = []any{7.0, 8.0}
+		} else if c.Chance(0.3) {
+			row["tags"] = []any{5.0, 6.0, 4.0}
+		}
+	}
+	sql := gen.Pick(c.R, []string{"SELECT rid, ONCE.VFONCE(ELEMENTAT(tags, 1), 0, 1) AS a FROM t1", "SELECT rid, once.vfonce(ELEMENTAT(tags, 1), 0, 1) AS a, rid AS b FROM t1 x",
+		"SELECT rid, ONCE.VFONCE(ELEMENTAT(tags, 1), 0, 1) AS a FROM t1 WHERE ONCE.VFONCE(ELEMENTAT(tags, 1), 0, 1) >= 0"})
+	latPlan = nil
+	ledgerReset()
+	doc := DocOf(t)
+	o := Run(doc, sql)
+	c.Feature("once.argument-of-first-row")
+	c.Sample(map[string]any{"sql": sql})
+	det := map[string]any{"sql": sql, "doc": doc, "observed": o.Describe()}
+	if !o.OK() {
+		c.Violate("error", fmt.Sprintf("query failed: %v (the ONCE call is made once, with the first row's arguments)", o.Describe()), det)
+		return
+	}
+	starts := 0
+	for _, e := range ledgerSnapshot() {
+		if e.kind == evStart {
+			starts++
+		}
+	}
+	want := vfValue(8.0, 1)
+	if len(o.Rows) != len(t.Rows) {
+		c.Violate("value", fmt.Sprintf("%d rows, expected %d", len(o.Rows), len(t.Rows)), det)
+		return
+	}
+	for _, r := range o.Rows {
+		m, _ := r.(map[string]any)
+		if m == nil || !val.Equal(m["a"], want) {
+			c.Violate("value", fmt.Sprintf("a row does not show the ONCE call's one value %v: %s", want, short(val.Canon(r), 200)), det)
+			return
+		}
+	}
+	if starts != 1 {
+		c.Violate("once", fmt.Sprintf("the ONCE function was invoked %d times in one query", starts), det)
+		return
+	}
+	c.Nontrivial(sql + val.Canon(doc))
+}
+
+// c14AsyncArgs: the arguments of an ASYNC call are what the unqualified call's
+// arguments are - values of the row's moment, also when they come from a
+// register that the next row overwrites.
+func c14AsyncArgs(c *fw.Case) {
+	n := 6 + c.Intn(20)
+	rows := make([]any, n)
+	for i := range rows {
+		rows[i] = map[string]any{"rid": float64(i), "n1": float64(c.Intn(1000))}
+	}
+	doc := map[string]any{"t1": rows}
+	sql := gen.Pick(c.R, []string{"SELECT rid, SETVAR('cur', n1), ASYNC.VF(GETVAR('cur'), rid, 1) AS a FROM t1", "SELECT rid, SETVAR('cur', n1), ASYNC.VF(GETVAR('cur'), rid, 1) AS a, SPINASYNC.VF(GETVAR('cur'), rid, 2) FROM t1 WHERE n1 >= 0"})
+	latPlan = nil
+	ledgerReset()
+	o := Run(doc, sql, genql.WithVars(map[string]any{}))
+	c.Feature("async.argument-from-register")
+	c.Sample(map[string]any{"sql": sql})
+	det := map[string]any{"sql": sql, "doc": doc, "observed": o.Describe()}
+	if !o.OK() || len(o.Rows) != n {
+		c.Violate("error", fmt.Sprintf("query failed or lost rows: %v", o.Describe()), det)
+		return
+	}
+	for i, r := range o.Rows {
+		m, _ := r.(map[string]any)
+		want := vfValue(rows[i].(map[string]any)["n1"], 1)
+		if m == nil || !val.Equal(val.Deref(m["a"]), want) {
+			c.Violate("value", fmt.Sprintf("row %d: the ASYNC column is %s, the unqualified call on that row gives %v", i, short(val.Canon(val.Deref(m["a"])), 100), want), det)
+			return
+		}
+	}
+	c.Nontrivial(sql + val.Canon(doc))
 }
